@@ -73,6 +73,10 @@ func alphabet(quick bool) []refcodec.Msg {
 		a = append(a, rawpeer.Tgetattr(0, f), rawpeer.Tsetattr(0, f, 8, 0, 3), rawpeer.Treadlink(0, f), rawpeer.Tstatfs(0, f), rawpeer.Tlock(0, f))
 		a = append(a, rawpeer.Txattrwalk(0, f, (f+1)%uint32(len(fids)), ""), rawpeer.Txattrwalk(0, f, (f+1)%uint32(len(fids)), "user.k"), rawpeer.Txattrwalk(0, f, f, "missing"))
 		a = append(a, rawpeer.Txattrcreate(0, f, "user.n", 2, 0), rawpeer.Txattrcreate(0, f, "user.k", 0, 2), rawpeer.Txattrcreate(0, f, "user.n", 0, 1))
+		// a one-byte attribute and a two-byte chunk: a write that OVERSHOOTS the
+		// announced size is refused and must change nothing (the one-byte chunk
+		// sent afterwards is still the first chunk)
+		a = append(a, rawpeer.Txattrcreate(0, f, "user.m", 1, 0), rawpeer.Twrite(0, f, 0, []byte("WW")))
 		for _, g := range fids {
 			if g == f {
 				continue
